@@ -70,6 +70,9 @@ type Engine struct {
 	extFuncs map[string]string
 	structCount int
 	faddrDone bool
+	sendSites map[string][]token.Pos
+	srcCache map[string][]string
+	hookHits map[string]bool
 	feasN int
 	signalChecked int
 	globalConst map[string]string
